@@ -210,6 +210,19 @@ CLAIMS["C33"] = (
     "'stays inside the storage area' half of the property is not decided.",
     "DESIGN.md section 4, C33")
 
+CLAIMS["C30"] = (
+    "The parts of the password checks that do not depend on digest values: mysql.CheckHashPassword accepts only proofs of exactly 20 bytes, "
+    "is panic-free for every response length and has an empty frame -- it never modifies the client's response or the salt (fixed in /repo: "
+    "it used to xor into the response, so later candidates and the clear-text fallback saw a corrupted response); CalcPassword / "
+    "CalcCachingSha2Password return a fresh 20 / 32-byte scramble (nil for an empty password) and modify none of their arguments; the user "
+    "manager's candidate loops (CheckPassword, CheckHashPassword, CheckSha2Password) write nothing, accept only a password configured for "
+    "that user, treat only '*' + 40-character entries as stored hashes, and accept only responses of the scramble's length.",
+    "SHA-1 / SHA-256 are opaque (trusted hash.Hash: Write/Reset/Sum touch only the hash object, Sum returns a fresh digest of the hash's size): "
+    "that an accepted response EQUALS MySQL's proof for some configured password -- the digest algebra SHA1(pw) xor SHA1(salt ++ SHA1(SHA1(pw))) "
+    "-- is NOT decided; the auth-plugin selection in Session.handleHandshakeResponse is not under contract (known: with an explicit "
+    "mysql_native_password plugin the stored-hash form is never consulted; read from the code, no obligation).",
+    "DESIGN.md section 4, C30")
+
 NA = {
  "C02": "not applicable to contract-based verification here: the oracle is the result of executing SQL on data (what one MySQL holding all shards would return); no contract within reach expresses an SQL execution semantics, and the rewriter is ~3k lines of visitors over TiDB AST types (DESIGN.md section 5)",
  "C06": "not applicable: the property compares a token pre-check with the decision of the yacc-generated parser; the specification is that parser (tables + hand-written lexer), which is outside the verifier's subset (DESIGN.md section 5)",
